@@ -11,10 +11,11 @@ compared with the by-definition evaluator of refmodel/graph.py.
   dir       every labelled directed graph on 2..3 (quick) / 2..4 (thorough)
             nodes + class representatives of 4 nodes (quick)
   wund/wdir every assignment of link-attribute values from {0.5, 1, 2} to the
-            links of the class representatives (undirected <= 5 nodes,
-            directed <= 3 nodes): strengths, weighted paths and the measures
-            built on them, weighted motif clustering, Holme clustering,
-            weighted PageRank
+            links of the small graphs (undirected <= 4, directed <= 3 nodes)
+            and one assignment per isomorphism class of attributed graphs on
+            the class representatives one size up: strengths, weighted paths
+            and the measures built on them, weighted motif clustering, Holme
+            clustering, weighted PageRank
   named     a fixed list of structured larger graphs (cliques, wheels,
             multipartite, paths, stars, cycles, unions, hypercubes, grids,
             a hub of degree 217 with a K5 among its neighbours, K183)
@@ -187,7 +188,6 @@ def _patterns(n):
 
 def _disc_motif(A, kind):
     def f(g, vals, mask):
-        n = len(A)
         M = np.array(A, dtype=np.int64)
         t = {"cycle": M @ M @ M, "mid": M @ M.T @ M, "in": M.T @ M @ M,
              "out": M @ M @ M.T}[kind].diagonal()
@@ -240,7 +240,6 @@ def _check_distribution(acc, net, name, k):
 
 
 def _check_deg(acc, net, A, directed):
-    n = len(A)
     k, ki, ko = G.degree(A, directed), G.indegree(A), G.outdegree(A)
     kb = G.bildegree(A)
     acc.check("degree", net.degree, k)
@@ -510,7 +509,6 @@ def _check_all(acc, A, directed, groups):
 
 def _check_weighted(acc, A, directed, W):
     from pyunicorn.core import Network
-    n = len(A)
     net = _mk(A, directed, W)
     acc.check("degree[key]", lambda: net.degree("w"),
               G.degree(A, directed, W))
@@ -841,7 +839,6 @@ def fam_selftest(case):
     a = np.array(A)
     Gx = nx.from_numpy_array(a, create_using=nx.DiGraph if directed
                              else nx.Graph)
-    U = nx.from_numpy_array(np.array(G.und(A)))
 
     def same(x, y, what, tol=1e-9):
         x = np.array([np.nan if v is None else v for v in np.ravel(
@@ -951,14 +948,44 @@ FAMILIES = {"und": fam_und, "dir": fam_dir, "wund": fam_wund,
 # ---------------------------------------------------------------------------
 
 
-def _weighted_cases(graphs, max_links=None):
+def _attr_orbit_reps(n, directed, mask):
+    """Codes of the attribute assignments on the links of the graph, one per
+    orbit under the automorphism group (the smallest code of each orbit):
+    exactly one representative per isomorphism class of link-attributed
+    graphs, as the topologies themselves are class representatives."""
+    P = pairs(n, directed)
+    links = [p for k, p in enumerate(P) if mask >> k & 1]
+    m = len(links)
+    pos = {p: k for k, p in enumerate(links)}
+    A = adj(n, directed, mask)
+    codes = np.arange(3 ** m, dtype=np.int64)
+    pow3 = 3 ** np.arange(m, dtype=np.int64)
+    digits = (codes[:, None] // pow3[None, :]) % 3
+    best = codes.copy()
+    for perm in itertools.permutations(range(n)):
+        if not all(A[perm[i]][perm[j]] == A[i][j]
+                   for i in range(n) for j in range(n)):
+            continue
+        img = []
+        for (i, j) in links:
+            a, b = perm[i], perm[j]
+            if not directed and a > b:
+                a, b = b, a
+            img.append(pos[(a, b)])
+        best = np.minimum(best, digits @ pow3[np.array(img, dtype=int)])
+    return [int(c) for c in codes[best == codes]]
+
+
+def _weighted_cases(graphs, max_links=None, orbits=False):
     out = []
     for (n, directed, mask) in graphs:
         m = bin(mask).count("1")
         if m == 0 or (max_links is not None and m > max_links):
             continue      # no link, no link attribute
-        for code in range(3 ** m):
-            out.append([n, mask, code])
+        if orbits:
+            out += [[n, mask, c] for c in _attr_orbit_reps(n, directed, mask)]
+        else:
+            out += [[n, mask, c] for c in range(3 ** m)]
     return out
 
 
@@ -997,19 +1024,24 @@ def run(ctx):
     ctx.explore("dir", cases, desc="all labelled directed graphs on 2..%d "
                 "nodes%s" % (nd, "" if thorough else " + iso(4)"))
     # --- link attributes
-    ug = [g for n in range(2, 5) for g in iso(n, False)]
-    cases = _weighted_cases(ug) + _weighted_cases(
-        iso(5, False), None if thorough else 6)
-    ctx.explore("wund", cases, desc="all attribute assignments from %s on "
-                "iso(2..4) and iso(5)%s" % (
-                    list(ATTR_VALUES), "" if thorough else " with <= 6 links"))
+    ug = [g for n in range(2, 5) for g in all_graphs(n, False)]
+    cases = _weighted_cases(ug if thorough else
+                            [g for n in range(2, 5) for g in iso(n, False)])
+    cases += _weighted_cases(iso(5, False), None if thorough else 7,
+                             orbits=True)
+    ctx.explore("wund", cases, desc="every assignment of %s to the links of "
+                "%s graphs on 2..4 nodes; iso(5)%s: one assignment per "
+                "isomorphism class of attributed graphs" % (
+                    list(ATTR_VALUES), "all labelled" if thorough else
+                    "the class representatives of", "" if thorough
+                    else " with <= 7 links"))
     dg = [g for n in range(2, 4) for g in all_graphs(n, True)]
     cases = _weighted_cases(dg)
-    if thorough:
-        cases += _weighted_cases(iso(4, True), 6)
-    ctx.explore("wdir", cases, desc="all attribute assignments on all "
-                "directed graphs on 2..3 nodes%s" % (
-                    " + iso(4) with <= 6 links" if thorough else ""))
+    cases += _weighted_cases(iso(4, True), 5 if thorough else 3, orbits=True)
+    ctx.explore("wdir", cases, desc="every assignment on all labelled "
+                "directed graphs on 2..3 nodes; iso(4) with <= %d links: one "
+                "assignment per isomorphism class of attributed graphs" % (
+                    5 if thorough else 3))
     # --- structured graphs
     names = [k for k, v in NAMED.items() if thorough or v[3]]
     ctx.explore("named", names, chunk=1, desc="fixed structured graphs")
